@@ -298,6 +298,17 @@ Definition psum (g : pc -> Z) (s : gst) : Z := lsum (fun u => g (pcs s u)) (part
 Definition waiting (p : pc) : bool :=
   match p with PWaitDec | PWaitLoad | PWaitFutex | PWaitSleep => true | _ => false end.
 
+(* vocabulary of the invariants (Proofs/Apply_proofs.v) and of their executable version (Model/ApplyR.v) *)
+Definition evt_enc (sd wt : bool) : Z :=
+  match sd, wt with false, false => 0 | true, false => 1 | false, true => UMAX32 | true, true => 0 end.
+(* the values begun / ended must have for an index whose owner stands at p *)
+Definition bval (p : pc) (i : Z) : Z := match p with PCall j _ => if j =? i then 0 else 1 | _ => 1 end.
+Definition eval_ (p : pc) (i : Z) : Z := match p with PCall j _ | PInCall j _ => if j =? i then 0 else 1 | _ => 1 end.
+Definition past_wait (p : pc) : bool :=
+  match p with PWaitLoad | PWaitFutex | PWaitSleep | PDec | PDone | PRet => true | _ => false end.
+Definition past_event (p : pc) : bool := match p with PDec | PDone | PRet => true | _ => false end.
+Definition is_ret (p : pc) : bool := match p with PRet => true | _ => false end.
+
 (* for the correspondence driver: run one recorded participation (the events of one run of _dispatch_apply_invoke2 on
    one record, for the caller up to the return of dispatch_apply_f); cfg = 2 * iterations + (1 if caller) *)
 Definition pc_final (wait : bool) (p : pc) : Z :=
